@@ -110,3 +110,26 @@ def compose_equal(chain_a, chain_b, k):
             if abs(ra[nm] - rb[nm]) > TOL * (1 + abs(ra[nm]) + abs(rb[nm])):
                 return False
     return True
+
+
+def check_applied(rows, applied, k):
+    """use_sympy=True: the loaded dict, substituted into the vector (a0..a(k-1)) of real symbols as
+    convert_params does, must send every bare-parameter key to the written value and leave the others alone."""
+    probs = []
+    names = NAMES[:max(k, 1)]
+    for i, (w, ap) in enumerate(zip(rows, applied)):
+        for j, (ws, a) in enumerate(zip(w, ap)):
+            d = parse_step(ws)
+            if d is None:
+                continue
+            if a is None or len(a) != len(names):
+                probs.append(('applied-missing', i, j, ws))
+                continue
+            for idx, nm in enumerate(names):
+                want = d.get(nm, nm)
+                if not sig_equal(signature(want), signature(a[idx])):
+                    probs.append(('applied-map-differs', i, j, ws, nm, a[idx]))
+                    break
+            if len(probs) > 3:
+                return probs
+    return probs
